@@ -21,6 +21,26 @@ func subjects(name, bounds string) []gen.Subject {
 		return append(gen.Snippets(), gen.CallGraphShapes(2, 1)...)
 	case "shapes3":
 		return append(gen.Snippets(), append(gen.CallGraphShapes(2, 3), gen.CallGraphShapes(3, 1)...)...)
+	case "shapes3e5":
+		// as shapes3, call graphs with at most 5 edges (backtrace needs minutes on denser recursive graphs: finding
+		// C07-backtrace-exponential-on-dense-recursion; three dense graphs are kept as witnesses)
+		out := gen.Snippets()
+		dense := 0
+		for _, s := range append(gen.CallGraphShapes(2, 3), gen.CallGraphShapes(3, 1)...) {
+			n := 0
+			for _, a := range s.Atoms {
+				if strings.HasPrefix(a, "edges:") {
+					fmt.Sscanf(a, "edges:%d", &n)
+				}
+			}
+			if n <= 5 {
+				out = append(out, s)
+			} else if n == 7 && dense < 3 && !strings.Contains(s.Sig, "-closure") && !strings.Contains(s.Sig, "-iface") && !strings.Contains(s.Sig, "-fparam") && !strings.Contains(s.Sig, "-mvalue") {
+				out = append(out, s)
+				dense++
+			}
+		}
+		return out
 	case "snippets":
 		return gen.Snippets()
 	case "alias":
